@@ -19,7 +19,7 @@ RULE = ("(a) a whole StateStore in the launcher's registration order over real c
         "nested agents (depth 0-3) with a value each; a TimeController on a virtual raw clock saved running or paused at scale 0.5-4 and loaded into a fresh controller whose raw clock has another origin. Compared through public getters: "
         "get_data, len, count_data_added_since at probe timestamps around every stored timestamp, inference output, per-agent value, time() right after the load and after a further raw advance. "
         "(b) relaunch: a launch() under the deterministic harness with a random command history, then in a fresh interpreter a second launch(saved_state_path = state saved at shutdown): step counter, buffer, trainer count and marker, "
-        "clock value at the load and at the first callback against the end values of run 1. Non-trivial = a store case with more samples than capacity and a non-default marker, or a relaunch with at least 3 steps and a training run; distinct = canonical JSON.")
+        "clock value at the load and at the first callback against the end values of run 1. (c) the PyTorch trainer over the stand-in torch: runs, and relaunches (save, load into a fresh trainer; also two in a row): the optimizer goes on counting where it was (harness-side clause). Non-trivial = a store case with more samples than capacity and a non-default marker, or a relaunch with at least 3 steps and a training run; distinct = canonical JSON.")
 TRUSTED = [
     "Coq 8.16.1 kernel incl. vm_compute",
     "hand-written model coq/Model/Roundtrip.v over Model/Buffers.v, Model/DataPipe.v (and Model/Models.v, Model/Composite.v, Model/Clock.v for the parts restated from C14, C12, C06)",
@@ -98,9 +98,15 @@ def gen_relaunch(rng):
     return {"kind": "relaunch", "run1": r1, "run2": r2}
 
 
+def gen_torch_trainer(rng):
+    """the PyTorch trainer's progress (optimizer state): runs, and relaunches (save, load into a fresh trainer) - also two
+    relaunches with no run in between"""
+    return {"kind": "torchtrainer", "ops": [rng.choice(["run", "run", "relaunch"]) for _ in range(rng.randint(2, 10))] + ["relaunch", "relaunch", "run"]}
+
+
 def gen(rng, tier):
     ns, nr = {"quick": (400, 32), "thorough": (12000, 600), "search": (3000, 100)}[tier]
-    return [gen_store(rng) for _ in range(ns)] + [gen_relaunch(rng) for _ in range(nr)]
+    return [gen_store(rng) for _ in range(ns)] + [gen_relaunch(rng) for _ in range(nr)] + [gen_torch_trainer(rng) for _ in range(nr)]
 
 
 def q(fr):
@@ -172,6 +178,11 @@ def relaunch_pairs(obs):
 def precheck(case, obs):
     if "crash" in obs or "error" in obs:
         return {"agree": False, "prop_ok": False, "hard": True}
+    if case["kind"] == "torchtrainer":
+        # the optimizer goes on counting where the previous run - before any number of saves and loads - left it (harness-side clause)
+        n = sum(1 for o in case["ops"] if o == "run")
+        ok = obs.get("opt_steps") == list(range(1, n + 1))
+        return {"agree": ok, "prop_ok": ok}
     if case["kind"] == "store":
         for u in obs["before"]["users"] + obs["after"]["users"]:
             if u["items"] and u["items"][0] == "misaligned":
@@ -205,6 +216,8 @@ def coq_expected(case, obs):
 
 
 def nontrivial(case, obs):
+    if case["kind"] == "torchtrainer":
+        return False
     if case["kind"] == "store":
         return any(len(u["adds"]) > u["cap1"] for u in case["users"]) and any(t["marker"] not in (None, "-inf") for t in case["trainers"])
     return obs.get("end", {}).get("steps", 0) >= 3 and obs.get("end", {}).get("trains", 0) >= 1
@@ -213,6 +226,8 @@ def nontrivial(case, obs):
 def signature(case, obs):
     if "error" in obs or "crash" in obs:
         return "harness-error"
+    if case["kind"] == "torchtrainer":
+        return "torch-trainer-progress"
     if case["kind"] == "store":
         b, a = obs["before"], obs["after"]
         if b["clock"] != a["clock"] or a["clock_later"] != a["expect_later"]:
@@ -241,6 +256,8 @@ def signature(case, obs):
 
 def shrink(case):
     out = []
+    if case["kind"] == "torchtrainer":
+        return [dict(case, ops=case["ops"][:i] + case["ops"][i + 1:]) for i in range(len(case["ops"]))]
     if case["kind"] == "store":
         if len(case["users"]) > 1:
             for i in range(len(case["users"])):
@@ -260,6 +277,8 @@ def shrink(case):
 
 
 def describe(case, obs):
+    if case["kind"] == "torchtrainer":
+        return {"input": case, "optimizer_steps_after_each_run": obs.get("opt_steps"), "error": obs.get("error")}
     if case["kind"] == "store":
         return {"input": case, "before_save": obs.get("before"), "after_load": obs.get("after"), "error": obs.get("error")}
     return {"input": case, "end_of_run_1": obs.get("end"), "start_of_run_2": obs.get("second"), "error": obs.get("error")}
@@ -268,7 +287,10 @@ def describe(case, obs):
 def distribution(cases, obs):
     d = {"store_cases": 0, "relaunch_cases": 0, "users": 0, "buffer_kinds": {}, "smaller_capacity": 0, "over_capacity": 0, "markers": {}, "paused_clock": 0,
          "agents": 0, "relaunch_steps": 0, "relaunch_trains": 0}
+    d["torch_trainer_cases"] = sum(1 for c in cases if c["kind"] == "torchtrainer")
     for c, o in zip(cases, obs):
+        if c["kind"] == "torchtrainer":
+            continue
         if c["kind"] == "store":
             d["store_cases"] += 1
             d["paused_clock"] += int(bool(c["clock"].get("paused")))
